@@ -143,6 +143,11 @@ def layout(t):
     return A.parse_type_str(A.arc4_str(t))
 
 
+def regname(m):
+    """the name a method is registered (and dispatched) under: overriding_name of add_method_handler, else its own"""
+    return m.get("regname") or m["name"]
+
+
 def gen_txn(rng, kind, tag):
     ty = CL.TYPE_ENUM[kind] if kind != "any" else rng.randrange(1, 7)
     return {"type": ty, "note": b"T%d-" % tag + bytes(rng.randrange(256) for _ in range(rng.choice([0, 3, 8])))}
@@ -175,6 +180,8 @@ def gen_case(rng, profile, nmethods=None):
         params = gen_params(rng, profile if k == 0 else "small")
         rt, mode = gen_ret(rng, params)
         m = {"name": "m%d" % k, "params": params, "ret": rt, "mode": mode}
+        if rng.random() < 0.08:
+            m["regname"] = "ov_%d" % k
         if mode == "lit":
             m["lit"] = A.gen_value(layout(rt), rng, text=True, maxlen=3)
         methods.append(m)
@@ -282,7 +289,10 @@ def build_router(pt, methods):
             m["name"], ", ".join(parts), ", ".join("p%d" % i for i in range(len(params))), "output" if rt is not None else "None")
         exec(src, g)
         sub = pt.ABIReturnSubroutine(g[m["name"]])
-        router.add_method_handler(sub)
+        if m.get("regname"):
+            router.add_method_handler(sub, overriding_name=m["regname"])
+        else:
+            router.add_method_handler(sub)
         subs.append(sub)
     return router, subs
 
@@ -538,16 +548,17 @@ def static_checks(case, out):
     ret_str = "void" if m["ret"] is None else A.arc4_str(m["ret"])
     calls = []
     # signature strings
-    r = mdl.ask((S("sigstr"), m["name"], tuple(A.ty_sx(t) for t in params), S("void") if m["ret"] is None else A.ty_sx(m["ret"])))
-    sig = CL.signature(m["name"], arg_strs, ret_str)
+    r = mdl.ask((S("sigstr"), m["name"], regname(m), tuple(A.ty_sx(t) for t in params), S("void") if m["ret"] is None else A.ty_sx(m["ret"])))
+    sig = CL.signature(regname(m), arg_strs, ret_str)
     if r[0] != S("sig") or r[1] != sig or r[2] != sig:
         out["model"].append("Coq signature strings %r differ from the ARC-4 signature %r" % (r, sig))
+    out["model_contract_sig"] = r[3]
     plan = mdl.ask((S("plan"), tuple(A.ty_sx(t) for t in params)))
     plan_l = plan_from_wire(plan)
     out["plan"] = plan_l
     for call in case["calls"]:
         args = call["args"]
-        c = CL.client_call(m["name"], arg_strs, ret_str, args, SENDER, APP_ID)
+        c = CL.client_call(regname(m), arg_strs, ret_str, args, SENDER, APP_ID)
         calls.append(c)
         out["n"]["client"] += 1
         # (2) spec validation: encodings three ways
@@ -601,7 +612,7 @@ def static_checks(case, out):
 
 
 def new_out():
-    return {"model": [], "plan_mismatch": [], "bind_mismatch": [], "fail": [], "contract": [], "notes": [], "unsup": {},
+    return {"model": [], "plan_mismatch": [], "bind_mismatch": [], "fail": [], "contract": [], "known_contract": [], "contract_corr": [], "notes": [], "unsup": {},
             "n": {"client": 0, "encodings": 0, "atc": 0, "atc_unusable": 0, "model_bind": 0, "compiles": 0, "runs": 0, "neg_runs": 0,
                   "contract": 0, "approve": 0, "inconclusive": 0, "reg_rejects": 0},
             "plan": None}
@@ -619,7 +630,7 @@ def run_case(case, combos, do_static=True):
         calls = static_checks(case, out)
     else:
         arg_strs = [A.arc4_str(t) for t in m["params"]]
-        calls = [CL.client_call(m["name"], arg_strs, "void" if m["ret"] is None else A.arc4_str(m["ret"]), c["args"], SENDER, APP_ID) for c in case["calls"]]
+        calls = [CL.client_call(regname(m), arg_strs, "void" if m["ret"] is None else A.arc4_str(m["ret"]), c["args"], SENDER, APP_ID) for c in case["calls"]]
     r = call_real(build_router, pt, methods)
     if r[0] != "ok":
         out["fail"].append({"kind": "registration", "what": "the router rejects the method(s): %s %s" % (r[1], r[2])})
@@ -635,19 +646,36 @@ def run_case(case, combos, do_static=True):
         flav = "fp" if ("proto 0 0" in teal) else "scratch"
         # ---- (5) contract ----
         out["n"]["contract"] += 1
-        reg = [(x["name"], [A.arc4_str(t) for t in x["params"]], "void" if x["ret"] is None else A.arc4_str(x["ret"])) for x in methods]
+        tstr = lambda x: ([A.arc4_str(t) for t in x["params"]], "void" if x["ret"] is None else A.arc4_str(x["ret"]))
+        reg = [(regname(x),) + tstr(x) for x in methods]            # what was registered: the property speaks about these
+        own = [(x["name"],) + tstr(x) for x in methods]             # faithful model: method_spec() uses the subroutine's own name
         got = [(cm.name, [str(a.type) for a in cm.args], str(cm.returns.type)) for cm in contract.methods]
-        if got != reg:
-            out["contract"].append({"version": version, "what": "contract methods differ from the registered ones", "contract": got, "registered": reg})
         csel = sorted(cm.get_selector() for cm in contract.methods)
         mysel = sorted(CL.selector(CL.signature(*x)) for x in reg)
         tsel = teal_selectors(teal)
-        if csel != mysel or sorted(s for s, _ in tsel if s is not None) != mysel or any(s is None for s, _ in tsel):
-            out["contract"].append({"version": version, "asm": asm, "what": "selectors disagree", "contract": [s.hex() for s in csel],
-                                    "arc4": [s.hex() for s in mysel], "teal": [(s.hex() if s else None, g) for s, g in tsel]})
-        if not asm and method_lines(teal) != sorted(CL.signature(*x) for x in reg):
-            out["contract"].append({"version": version, "what": "method pseudo-op lines differ from the registered signatures",
-                                    "teal": method_lines(teal), "registered": sorted(CL.signature(*x) for x in reg)})
+        teal_ok = sorted(s for s, _ in tsel if s is not None) == mysel and not any(s is None for s, _ in tsel) and \
+            (asm or method_lines(teal) == sorted(CL.signature(*x) for x in reg))
+        if do_static and out.get("model_contract_sig") is not None and contract.methods[mi].get_signature() != out["model_contract_sig"]:
+            out["contract_corr"].append({"version": version, "real": contract.methods[mi].get_signature(), "model": out["model_contract_sig"]})
+        if got != reg or csel != mysel or not teal_ok:
+            detail = {"version": version, "asm": asm, "contract": got, "registered": reg, "contract_selectors": [s.hex() for s in csel],
+                      "registered_selectors": [s.hex() for s in mysel], "teal": [(s.hex() if s else None, g) for s, g in tsel]}
+            overridden = [x for x in methods if regname(x) != x["name"]]
+            if overridden and got == own and teal_ok:
+                # exactly what the faithful model predicts for a registration with an overriding name
+                detail["what"] = "contract lists %s under the subroutine's own name %r; the program dispatches on %r" % (
+                    overridden[0]["name"], CL.signature(*own[methods.index(overridden[0])]), CL.signature(*reg[methods.index(overridden[0])]))
+                # a client that follows the contract: its selector is not dispatched
+                if mi < len(methods) and regname(methods[mi]) != methods[mi]["name"] and calls:
+                    c0 = calls[0]
+                    aa = [contract.methods[mi].get_selector()] + c0.app_args[1:]
+                    ctx0, _ = call_ctx(c0, case["calls"][0]["before"], case["calls"][0]["after"], [(s_, CL.selector(s_)) for s_ in method_lines(teal)], app_args=aa)
+                    v0, _l0 = logs_of(mdl.ask((S("run"), ctx0, teal)))
+                    detail["contract_client_verdict"] = v0
+                out["known_contract"].append(detail)
+            else:
+                detail["what"] = "contract description disagrees with the registered methods / dispatched selectors"
+                out["contract"].append(detail)
         msel = [(s, CL.selector(s)) for s in method_lines(teal)]
         # ---- (4) behaviour ----
         for ci, (c, call) in enumerate(zip(calls, case["calls"])):
@@ -709,6 +737,7 @@ def registration_checks(ck, rng):
     mdl = model()
     bad = 0
     n = 0
+    hist_exc = {}
     cases = []
     for inner in TXN_TYPES[:3] + REF_TYPES[:2]:
         cases.append(([("tuple", ("uint", 64), inner)], None))
@@ -718,8 +747,8 @@ def registration_checks(ck, rng):
     cases += [([("txn", "pay"), ("ref", "asset")], None), ([("tuple", ("uint", 8))], ("uint", 8))]
     for params, rt in cases:
         m = {"name": "r", "params": params, "ret": rt, "mode": "void" if rt is None else "lit", "lit": None}
-        r = mdl.ask((S("sigstr"), "r", tuple(A.ty_sx(t) for t in params), S("void") if rt is None else A.ty_sx(rt)))
-        model_ok = r[3] == S("true")
+        r = mdl.ask((S("sigstr"), "r", "r", tuple(A.ty_sx(t) for t in params), S("void") if rt is None else A.ty_sx(rt)))
+        model_ok = r[4] == S("true")
 
         def reg():
             from pyteal import abi
@@ -739,15 +768,19 @@ def registration_checks(ck, rng):
         real_ok = rr[0] == "ok"
         n += 1
         ck.count(("reg", repr(params), repr(rt)), nontrivial=not model_ok)
-        if rr[0] == "exc" and rr[1] not in PYTEAL_ERRORS + ("TypeError",):
-            ck.violation("registering %r -> %r crashes with %s" % (params, rt, rr[1]), {"kind": "registration-crash", "params": jd(params), "ret": jd(rt), "exc": rr[1:]})
+        if rr[0] == "exc":
+            hist_exc[rr[1]] = hist_exc.get(rr[1], 0) + 1
         if real_ok != model_ok:
             bad += 1
-            # a transaction type nested in a value type, accepted by the router, has no ARC-4 meaning: failing input
-            ck.violation("router %s a method with parameters %s returning %s; the model (router.py checks) says %s" % (
-                "accepts" if real_ok else "rejects", [A.arc4_str(t) for t in params], rt and A.arc4_str(rt), "accept" if model_ok else "reject"),
-                {"kind": "registration", "params": jd(params), "ret": jd(rt), "real": rr[:2], "model": model_ok})
+            if real_ok:
+                # a transaction / reference type nested in a value type has no ARC-4 calling convention: failing input
+                ck.violation("router accepts a method with parameters %s returning %s although a transaction/reference type is nested in a value type" % (
+                    [A.arc4_str(t) for t in params], rt and A.arc4_str(rt)),
+                    {"kind": "registration", "params": jd(params), "ret": jd(rt), "real": rr[:2], "model": model_ok})
+            else:
+                ck.notes.append("registration: router rejects %s -> %s (%s) but the model accepts" % ([A.arc4_str(t) for t in params], rt and A.arc4_str(rt), rr[1]))
     ck.coverage["registration_cases"] = n
+    ck.coverage["registration_rejections_by_exception"] = hist_exc
     return bad
 
 
@@ -859,7 +892,7 @@ def combos_for(i, tier, boundary=False):
 
 def case_summary(case):
     m = case["methods"][case["target"]]
-    return {"signature": CL.signature(m["name"], [A.arc4_str(t) for t in m["params"]], "void" if m["ret"] is None else A.arc4_str(m["ret"])),
+    return {"signature": CL.signature(regname(m), [A.arc4_str(t) for t in m["params"]], "void" if m["ret"] is None else A.arc4_str(m["ret"])),
             "return_mode": m["mode"], "methods_in_router": len(case["methods"]), "calls": len(case["calls"])}
 
 
@@ -896,7 +929,7 @@ def main(argv):
         corpus = [jl(c) for c in json.load(open(CORPUS))]
     cases = [("corpus", c) for c in corpus]
     cases += [("boundary", c) for c in boundary_cases(ck.rng, thorough)]
-    nrand = 700 if thorough else 170
+    nrand = 900 if thorough else 230
     profiles = ["any", "cutoff", "small", "txnheavy", "refheavy", "cutoff", "any"]
     for i in range(nrand):
         cases.append(("random:" + profiles[i % len(profiles)], gen_case(ck.rng, profiles[i % len(profiles)])))
@@ -917,7 +950,7 @@ def main(argv):
     tot = new_out()["n"]
     hist = {"params": {}, "non_txn_args": {}, "txn_params": {}, "ref_params": {}, "origin": {}, "flavour_runs": {}, "ret": {}}
     unsup = {}
-    plan_mis, bind_mis, fails, contract_bad, model_bad = [], [], [], [], []
+    plan_mis, bind_mis, fails, contract_bad, model_bad, known_contract, contract_corr = [], [], [], [], [], [], []
     for (idx, r) in results:
         origin, case = cases[idx]
         m = case["methods"][case["target"]]
@@ -946,19 +979,41 @@ def main(argv):
             fails.append((idx, x))
         for x in r["contract"]:
             contract_bad.append((idx, x))
+        for x in r["known_contract"]:
+            known_contract.append((idx, x))
+        for x in r["contract_corr"]:
+            contract_corr.append((idx, x))
         for x in r["notes"][:1]:
             if x not in ck.notes and len(ck.notes) < 5:
                 ck.notes.append(x)
-        if len(ck.samples) < 5 and len(ps) in (3, 16, 21, 9, 0) and not any(s["signature"].count(",") == case_summary(case)["signature"].count(",") for s in ck.samples):
-            s = case_summary(case)
-            s["plan"] = repr(r["plan"])
-            ck.sample(s)
+        want = (3, 16, 21, 9)
+        if len(ck.samples) < 4 and origin.startswith("random") and len(ps) in want and not any(s_["n_params"] == len(ps) for s_ in ck.samples):
+            s_ = case_summary(case)
+            s_["n_params"] = len(ps)
+            s_["binding_plan"] = repr(r["plan"])
+            s_["first_call_args"] = repr(case["calls"][0]["args"])[:600]
+            s_["compiled_for"] = [list(c) for c in jobs[idx][2]]
+            ck.sample(s_)
     ck.evaluations += tot["runs"] + tot["neg_runs"] + tot["client"]
     ck.coverage["counts"] = tot
     ck.coverage["input_distribution"] = {k: {str(a): b for a, b in sorted(v.items(), key=lambda kv: str(kv[0]))} for k, v in hist.items()}
     ck.coverage["inconclusive_avm_verdicts"] = unsup
     ck.coverage["constants"] = {"METHOD_ARG_NUM_CUTOFF": ptconfig.METHOD_ARG_NUM_CUTOFF, "RETURN_HASH_PREFIX": bytes(ptconfig.RETURN_HASH_PREFIX).hex()}
     ck.coverage["phase_s"] = phase
+
+    # ---- known findings: replay against the real code, attribute matching cases ----
+    kf = ck.match_known(lambda f: f["id"] == "contract-ignores-overriding-name")
+    still = replay_known_override(ck) if kf else None
+    ck.coverage["known_contract_cases"] = len(known_contract)
+    if known_contract:
+        if kf and still:
+            ck.known(kf["id"], "contract-ignores-overriding-name: %s (%d generated registrations with an overriding name; witness %s; a client following the contract gets verdict %r)" % (
+                known_contract[0][1]["what"], len(set(i for i, _ in known_contract)), kf["witness"]["call"], still.get("contract_client_verdict")))
+        else:
+            idx, f = known_contract[0]
+            ck.violation("contract description disagrees with the program: %s" % f["what"], {"kind": "contract", "case": jd(cases[idx][1]), "detail": f})
+    elif kf and still:
+        ck.known(kf["id"], "contract-ignores-overriding-name: %s; a client following the contract gets verdict %r" % (still["what"], still.get("contract_client_verdict")))
 
     # ---- verdict ----
     for x in model_bad[:5]:
@@ -998,6 +1053,8 @@ def main(argv):
         broken.append("proof obligation: Props/C09.v or Proofs/RouterArgs*.v no longer checks")
     if bad_reg:
         broken.append("registration checks differ")
+    if contract_corr:
+        broken.append("contract correspondence: signature in the real contract != spec_of (Router/Args.v) on %d compilations, first %r" % (len(contract_corr), contract_corr[0][1]))
     if broken and not fails and not contract_bad:
         ck.violation("; ".join(broken) + "; behaviour search over %d executions found no wrong binding" % tot["runs"],
                      {"kind": "correspondence", "broken": broken, "first_plan": plan_mis[:1], "first_bind": bind_mis[:1],
@@ -1006,6 +1063,26 @@ def main(argv):
     ck.coverage["plan_mismatches"] = len(plan_mis)
     phase["report"] = round(time.time() - t2, 1)
     return finish(ck)
+
+
+def override_case():
+    """the witness of known finding contract-ignores-overriding-name as a case"""
+    return {"methods": [{"name": "add", "regname": "foo", "params": [("uint", 64)], "ret": ("uint", 64), "mode": "param:0"}], "target": 0,
+            "calls": [{"args": [41], "before": [], "after": []}]}
+
+
+def replay_known_override(ck):
+    """-> the known-finding detail if the real code still shows it, else None"""
+    r = run_case(override_case(), [(8, None, None, False), (6, None, None, False)])
+    ck.count(("known", "override"))
+    for x in r["model"]:
+        ck.model_problem(x)
+    if r["known_contract"] and not r["contract"] and not r["fail"]:
+        return r["known_contract"][0]
+    if r["contract"] or r["fail"]:
+        f = (r["contract"] + r["fail"])[0]
+        ck.violation("registration with overriding_name: %s" % f.get("what"), {"kind": "contract", "case": jd(override_case()), "detail": f})
+    return None
 
 
 def finish(ck):
